@@ -273,3 +273,28 @@ def c05(run):
     run.model_check("MC_WKT", timeout=1800)
     family_enumerated(run, "wkt", "Gen_WKT", "Trace_WKT", gen_cfg=tier_n(run, "Gen_WKT.cfg", "Gen_WKT_full.cfg"))
     family_random(run, "wkt", "Trace_WKT", tier_n(run, 4000, 200000))
+
+FAMILY_MODULE["geojson"] = "Trace_GeoJSON"
+
+
+def _canary_geojson(e):
+    if e["kind"] != "enc" or e["err"] or not e["jsonvalid"]:
+        return None
+    e["doc"]["keys"] = e["doc"]["keys"] + ["zz"]
+    return e
+
+
+CANARY["geojson"] = _canary_geojson
+
+
+@prop("C06")
+def c06(run):
+    run.assumptions += ["JSON number text <-> float64 is trusted to strconv / encoding/json; TLC's own JSON parser re-reads the raw "
+                        "output only on the small-integer sub-domain (its Json module truncates non-integers)"]
+    run.extra_cov = {"rule": "random trees of the 7 types x 4 coordinate types with empty members and nested collections, ordinates "
+                             "over finite float64 classes; documents enumerated by TLC from a grammar (position lengths 0..5 x 14 "
+                             "document shapes incl. unknown types, missing members, nulls); features with ids / properties / foreign "
+                             "members; non-trivial = non-empty"}
+    run.model_check("MC_GeoJSON", timeout=600)
+    family_enumerated(run, "geojson", "Gen_GeoJSON", "Trace_GeoJSON")
+    family_random(run, "geojson", "Trace_GeoJSON", tier_n(run, 4000, 200000))
